@@ -105,12 +105,18 @@ func (pl ProofList) Verify(publicKeys []*gabikeys.PublicKey, context, nonce *big
 		if len(keyshareServers) > 0 {
 			kss = keyshareServers[i]
 		}
+		// A proof without a secret key response (e.g. one that lists attribute 0 as disclosed)
+		// cannot be linked to the other proofs, so it must not be accepted as part of a list.
+		skResponse := proof.SecretKeyResponse()
+		if skResponse == nil {
+			return false
+		}
 		if response, contains := secretkeyResponses[kss]; !contains {
 			// First time we see this keyshare server
-			secretkeyResponses[kss] = proof.SecretKeyResponse()
+			secretkeyResponses[kss] = skResponse
 		} else {
 			// We've already seen this keyshare server, secret key response should match earlier one
-			if response.Cmp(proof.SecretKeyResponse()) != 0 {
+			if response.Cmp(skResponse) != 0 {
 				return false
 			}
 		}
